@@ -52,6 +52,15 @@ class Sel(object):
         self.mask = mask
 
 
+class GridState(object):
+    """content of an object array whose cells are Python lists (density2d's H_events): after the scatter loop
+    'for e, a, b in zip(ev, xb, yb): G[a, b].append(e)' cell (a, b) holds exactly the e_k with (xb_k, yb_k) == (a, b)"""
+
+    def __init__(self):
+        self.initialised = False
+        self.members = None      # (n, ev(k), xb(k), yb(k)) as functions of a z3 index
+
+
 class NumpyModel(object):
     def __init__(self, I):
         self.I = I
@@ -640,6 +649,9 @@ class NumpyModel(object):
         if cache is None:
             cache = ctx._mask_cache = {}
         key = self.content_key(mask)
+        import os
+        if os.environ.get('DBG_MASK'):
+            print('MASKKEY', hash(key), key[0][:200].replace('\n', ' '), key[1])
         hit = cache.get(key)
         if hit is not None:
             return hit[1]          # the same mask contents always enumerate the same rows
@@ -648,8 +660,9 @@ class NumpyModel(object):
         return s_
 
     def content_key(self, a):
-        r = a.root()
-        return (id(r._fn), None if a.view_of is None else id(a))
+        # the mask's contents as a term: equal terms are equal masks, so they enumerate the same rows
+        probe = z3.Int('ck_probe')
+        return (a.fn(probe).sexpr(), self.dim_z(a.shape[0]).sexpr())
 
     def _mask_sel(self, mask, dim, dz):
         I = self.I
@@ -671,9 +684,12 @@ class NumpyModel(object):
         rank = ctx.fresh_fn('rank', z3.IntSort(), z3.IntSort())
         ctx.assume(z3.And(0 <= cnt, cnt <= dz))
         r, r2, i = z3.Ints('flt_r flt_r2 flt_i')
+        # triggers are chosen so that no instance creates a term that triggers another axiom of the group again
+        # (sel(r) -> rank(sel(r)) -> sel(rank(sel(r))) ... would be a matching loop whenever the range guards are undetermined)
         ctx.assume(z3.ForAll([r], z3.Implies(z3.And(0 <= r, r < cnt),
-                                             z3.And(0 <= sel(r), sel(r) < dz, mfn(sel(r)), rank(sel(r)) == r)),
+                                             z3.And(0 <= sel(r), sel(r) < dz, mfn(sel(r)))),
                              patterns=[sel(r)]))
+        ctx.assume(z3.ForAll([r], z3.Implies(z3.And(0 <= r, r < cnt), rank(sel(r)) == r), patterns=[rank(sel(r))]))
         ctx.assume(z3.ForAll([r, r2], z3.Implies(z3.And(0 <= r, r < r2, r2 < cnt), sel(r) < sel(r2)),
                              patterns=[z3.MultiPattern(sel(r), sel(r2))]))
         ctx.assume(z3.ForAll([i], z3.Implies(z3.And(0 <= i, i < dz, mfn(i)),
@@ -684,12 +700,38 @@ class NumpyModel(object):
         s.mask_fn = mfn
         return s
 
+    def named_fn(self, f, sort=None):
+        """a one-argument content function under a name of its own: g with the definitional axiom  forall r. g(r) == f(r)
+        triggered on g(r).  Quantifiers that talk about the content then get the arithmetic-free trigger g(k); a trigger such
+        as P(M-1-k) makes z3 invert the arithmetic and instantiate on every integer term in sight (a matching loop).
+        A function that already is an uninterpreted symbol applied to its argument is returned as it is."""
+        ctx = self.I.ctx
+        probe = z3.Int('nm_probe')
+        e = f(probe)
+        es = z3.simplify(e)
+        if z3.is_app(es) and es.decl().kind() == z3.Z3_OP_UNINTERPRETED and es.num_args() == 1 and z3.eq(es.arg(0), probe):
+            return lambda t, d_=es.decl(): d_(t)
+        cache = getattr(ctx, '_named_cache', None)
+        if cache is None:
+            cache = ctx._named_cache = {}
+        key = e.sexpr()
+        if key in cache:
+            return cache[key][0]
+        g = ctx.fresh_fn('idx', z3.IntSort(), e.sort())
+        r = z3.Int('nm_r')
+        ctx.assume(z3.ForAll([r], g(r) == f(r), patterns=[g(r)]))
+        gf = lambda t, g=g: g(t)
+        cache[key] = (gf, e)
+        return gf
+
     def intarr_sel(self, f, n, dim, ax):
         """integer index array/list on one axis: every entry must be in range"""
         from .interp import raise_py
         I = self.I
         dz = self.dim_z(dim)
         nz = self.dim_z(n) if not isinstance(n, SV) else n.z
+        if not isinstance(n, int):
+            f = self.named_fn(f)
         if isinstance(n, int):
             for k in range(n):
                 e = f(z3.IntVal(k))
@@ -697,11 +739,13 @@ class NumpyModel(object):
                     raise_py('IndexError', 'index out of bounds for axis %d' % ax)
         else:
             k = I.ctx.fresh_int('ia_k')
-            bad = z3.Exists([k], z3.And(0 <= k, k < nz, z3.Not(z3.And(-dz <= f(k), f(k) < dz))))
+            bad = z3.Exists([k], z3.And(0 <= k, k < nz, z3.Not(z3.And(-dz <= f(k), f(k) < dz))), patterns=[f(k)])
             if I.ctx.branch(bad, safety=True):
                 raise_py('IndexError', 'index out of bounds for axis %d' % ax)
-        return Sel('map', n=self.norm_dim(n) if not isinstance(n, int) else n,
-                   fn=lambda r, f=f, dz=dz: z3.If(f(r) < 0, f(r) + dz, f(r)), adv=True)
+        s_ = Sel('map', n=self.norm_dim(n) if not isinstance(n, int) else n,
+                 fn=lambda r, f=f, dz=dz: z3.If(f(r) < 0, f(r) + dz, f(r)), adv=True)
+        s_.raw = f
+        return s_
 
     def seq_sel(self, p, dim, ax):
         from .interp import raise_py
@@ -753,9 +797,35 @@ class NumpyModel(object):
     def getitem(self, arr, key):
         I = self.I
         if arr.dtype == 'object':
-            raise Unsupported('indexing an object array')
+            return self.grid_getitem(arr, key)
         sels = self.parse_key(arr, key)
         return self.apply_sels(arr, sels)
+
+    def grid_getitem(self, arr, key):
+        g = getattr(arr, 'grid', None)
+        if g is None:
+            raise Unsupported('indexing an object array')
+        key = self.I.force(key)
+        if isinstance(key, NDArr) and key.dtype == 'bool' and key.ndim == 2:
+            self.ax('object-array[bool mask] selects the cells where the mask holds')
+            from .interp import raise_py
+            for dk_, da_ in zip(key.shape, arr.shape):
+                if not zeq(dk_, da_):
+                    if not self.I.ctx.branch(self.dim_z(dk_) == self.dim_z(da_), safety=False):
+                        raise_py('IndexError', 'boolean index did not match indexed array')
+            # the mask as it is now, under a name of its own (definitional axiom): index-set reasoning stays independent of how
+            # the mask was computed
+            ctx = self.I.ctx
+            BMf = ctx.fresh_fn('selmask', z3.IntSort(), z3.IntSort(), z3.BoolSort())
+            kf = key.fn
+            a_, b_ = z3.Ints('sm_a sm_b')
+            ctx.assume(z3.ForAll([a_, b_], z3.Implies(z3.And(0 <= a_, a_ < self.dim_z(arr.shape[0]), 0 <= b_, b_ < self.dim_z(arr.shape[1])),
+                                                      BMf(a_, b_) == kf(a_, b_)), patterns=[BMf(a_, b_)]))
+            g.selected_by = BMf
+            return Opaque('gridsel', (arr, lambda x_, y_, BMf=BMf: BMf(x_, y_)))
+        if isinstance(key, Seq) and key.kind == 'tuple' and len(key.items) == 2:
+            return Opaque('gridcell', (arr, key.items[0], key.items[1]))
+        raise Unsupported('object-array key')
 
     def apply_sels(self, arr, sels):
         advs = [s for s in sels if s.kind == 'map' and s.adv]
@@ -840,6 +910,16 @@ class NumpyModel(object):
             raise_py('ValueError', 'assignment destination is read-only')
         if arr.dtype == 'object':
             raise Unsupported('write into an object array')
+        key = I.force(key)
+        if isinstance(key, Opaque) and key.tag == 'indexset':
+            member = key.payload
+            V0 = self.as_array(val)
+            if V0.ndim != 0 or arr.ndim != 1:
+                raise Unsupported('index-set store of a non-scalar')
+            newv = self.cast(V0.fn(), V0.dtype, arr.dtype, arr.bits)
+            self.ax('a[idx] = v with an integer index array writes v at exactly the listed positions')
+            self.apply_update(arr, lambda t, member=member, newv=newv: (member(t), newv))
+            return None
         sels = self.parse_key(arr, key)
         if any(s.kind == 'new' for s in sels):
             raise Unsupported('newaxis in an assignment target')
@@ -876,9 +956,21 @@ class NumpyModel(object):
                     raise_py('ValueError', 'could not broadcast input array into selection')
         # inverse maps: for each 'map' selector we need r with fn(r) == target index
         invs = []
+        n_adv = sum(1 for s in sels if s.kind != 'fix' and s.adv)
         for s in sels:
             if s.kind == 'fix':
                 invs.append(None)
+            elif V.ndim == 0 and n_adv == 1 and s.adv and s.mask is None and not isinstance(s.n, int):
+                # a scalar stored through an integer index array: position t is written iff it is listed (which occurrence
+                # wrote last does not matter)
+                nz_ = self.dim_z(s.n)
+                kq = z3.Int('st_k')
+                sf = s.fn
+                raw = getattr(s, 'raw', None)
+                if raw is not None:
+                    invs.append(lambda t, nz_=nz_, kq=kq, sf=sf, raw=raw: (z3.Exists([kq], z3.And(0 <= kq, kq < nz_, sf(kq) == t), patterns=[raw(kq)]), z3.IntVal(0)))
+                else:
+                    invs.append(lambda t, nz_=nz_, kq=kq, sf=sf: (z3.Exists([kq], z3.And(0 <= kq, kq < nz_, sf(kq) == t)), z3.IntVal(0)))
             else:
                 invs.append(self.inverse_of(s))
         if V.dtype == 'xfloat':
@@ -943,6 +1035,12 @@ class NumpyModel(object):
                 return lambda t, a=a, nz=nz: (z3.And(t - a >= 0, t - a < nz), t - a)
         except Exception:
             pass
+        try:
+            a = z3.simplify(e + probe)       # reversed: fn(r) = a - r
+            if not self.mentions(a, probe):
+                return lambda t, a=a, nz=nz: (z3.And(a - t >= 0, a - t < nz), a - t)
+        except Exception:
+            pass
         if isinstance(s.n, int) and s.n <= 16:
             vals = [z3.simplify(s.fn(z3.IntVal(k))) for k in range(s.n)]
 
@@ -969,7 +1067,9 @@ class NumpyModel(object):
             return cache[ckey][1]
         posf = I.ctx.fresh_fn('pos', z3.IntSort(), z3.IntSort())
         k = z3.Int('pos_k')
-        I.ctx.assume(forall_pat([k], z3.Implies(z3.And(0 <= k, k < nz), posf(s.fn(k)) >= k), [posf(s.fn(k))]))
+        raw = getattr(s, 'raw', None)
+        I.ctx.assume(forall_pat([k], z3.Implies(z3.And(0 <= k, k < nz), z3.And(posf(s.fn(k)) >= k, posf(s.fn(k)) < nz)),
+                                [raw(k)] if raw is not None else [posf(s.fn(k))]))
         I.ctx.use_axiom('numpy:fancy store: last occurrence wins (pos = greatest k with idx[k]=t)')
         t_ = z3.Int('pos_t')
         I.ctx.assume(forall_pat([t_], z3.Implies(z3.And(0 <= posf(t_), posf(t_) < nz), s.fn(posf(t_)) == t_), [posf(t_)]))
@@ -1117,6 +1217,14 @@ class NumpyModel(object):
         self.ax('reshape/ravel/T of a C-contiguous array are views with row-major index arithmetic')
         if a.ndim == 1 and len(shape) == 2 and shape[0] == -1 and shape[1] == 1:
             return self.make_view(a, [a.shape[0], 1], lambda i, j: [i], lambda r: (z3.BoolVal(True), [r, z3.IntVal(0)]))
+        if a.ndim == 1 and len(shape) == 2 and all(I.kind(s_) == 'int' for s_ in shape) and -1 not in shape \
+                and self.dim_z(a.shape[0]).sexpr() in getattr(I.ctx, '_flat_by_M', {}):
+            fn0, fn1, row, col, flat = I.ctx._flat_by_M[self.dim_z(a.shape[0]).sexpr()]
+            n0, n1 = I.z(shape[0], 'int'), I.z(shape[1], 'int')
+            if not I.ctx.branch(z3.And(n0 == fn0, n1 == fn1), safety=False):
+                raise Unsupported('reshape of a flattened grid to a different shape')
+            return self.make_view(a, [self.norm_dim(n0), self.norm_dim(n1)], lambda i, j, flat=flat: [flat(i, j)],
+                                  lambda r, row=row, col=col: (z3.BoolVal(True), [row(r), col(r)]))
         if a.ndim == 1 and len(shape) == 2 and all(I.kind(s_) == 'int' for s_ in shape) and -1 not in shape:
             n0, n1 = I.z(shape[0], 'int'), I.z(shape[1], 'int')
             total = self.dim_z(a.shape[0])
@@ -1127,9 +1235,46 @@ class NumpyModel(object):
                                   lambda r, n1=n1: (z3.BoolVal(True), [r / n1, r % n1]))
         raise Unsupported('reshape %r' % (shape,))
 
+    def flat_bijection(self, n0, n1):
+        """row-major flattening of an n0 x n1 grid with symbolic n1, abstracted to a bijection (row, col, flat) between the
+        grid positions and [0, M): everything the real i*n1+j / divmod satisfy that index-set reasoning needs, without
+        non-linear arithmetic.  One bijection per shape."""
+        ctx = self.I.ctx
+        cache = getattr(ctx, '_flat_cache', None)
+        if cache is None:
+            cache = ctx._flat_cache = {}
+        key = (z3.simplify(n0).sexpr(), z3.simplify(n1).sexpr())
+        if key in cache:
+            return cache[key]
+        M = ctx.fresh_int('flat_M')
+        row = ctx.fresh_fn('flat_row', z3.IntSort(), z3.IntSort())
+        col = ctx.fresh_fn('flat_col', z3.IntSort(), z3.IntSort())
+        flat = ctx.fresh_fn('flat_idx', z3.IntSort(), z3.IntSort(), z3.IntSort())
+        i, j, t = z3.Ints('fb_i fb_j fb_t')
+        ctx.assume(z3.And(M >= 0, z3.Implies(z3.And(n0 >= 1, n1 >= 1), z3.And(M >= n0, M >= n1)),
+                          z3.Implies(z3.Or(n0 == 0, n1 == 0), M == 0)))
+        # (triggers avoid the loop flat(i,j) -> row(flat(i,j)) -> flat(row(..), col(..)) ...)
+        inr = z3.And(0 <= i, i < n0, 0 <= j, j < n1)
+        ctx.assume(z3.ForAll([i, j], z3.Implies(inr, z3.And(0 <= flat(i, j), flat(i, j) < M)), patterns=[flat(i, j)]))
+        ctx.assume(z3.ForAll([i, j], z3.Implies(inr, row(flat(i, j)) == i), patterns=[row(flat(i, j))]))
+        ctx.assume(z3.ForAll([i, j], z3.Implies(inr, col(flat(i, j)) == j), patterns=[col(flat(i, j))]))
+        ctx.assume(z3.ForAll([t], z3.Implies(z3.And(0 <= t, t < M),
+                                             z3.And(0 <= row(t), row(t) < n0, 0 <= col(t), col(t) < n1, flat(row(t), col(t)) == t)),
+                             patterns=[z3.MultiPattern(row(t), col(t))]))
+        self.ax('row-major flattening of a 2-d array with symbolic shape is a bijection grid <-> [0, n0*n1) (abstracted: M, row, col, flat)')
+        cache[key] = (M, row, col, flat)
+        ctx._flat_by_M = getattr(ctx, '_flat_by_M', {})
+        ctx._flat_by_M[M.sexpr()] = (n0, n1, row, col, flat)
+        return cache[key]
+
     def m_ravel(self, a, order='C'):
         if a.ndim == 1:
             return self.make_view(a, list(a.shape), lambda i: [i], lambda r: (z3.BoolVal(True), [r]))
+        if a.ndim == 2 and order == 'C' and not isinstance(a.shape[1], int):
+            n0, n1 = self.dim_z(a.shape[0]), self.dim_z(a.shape[1])
+            M, row, col, flat = self.flat_bijection(n0, n1)
+            return self.make_view(a, [self.norm_dim(M)], lambda r, row=row, col=col: [row(r), col(r)],
+                                  lambda i, j, flat=flat: (z3.BoolVal(True), [flat(i, j)]))
         if a.ndim == 2 and order == 'C':
             self.ax('reshape/ravel/T of a C-contiguous array are views with row-major index arithmetic')
             n0, n1 = self.dim_z(a.shape[0]), self.dim_z(a.shape[1])
@@ -1234,6 +1379,13 @@ class NumpyModel(object):
                 body = afn(*idx) if a.dtype == 'bool' else self.cast(afn(*idx), a.dtype, 'bool')
                 e = z3.ForAll(idx, z3.Implies(rng, body)) if name == 'all' else z3.Exists(idx, z3.And(rng, body))
                 return self.scalar(e, 'bool')
+            if name == 'sum':
+                tot = I.ctx.fresh_real('total')
+                self.ax('np.sum of a whole array: an uninterpreted total (only used for normalisation)')
+                out_t = self.scalar(tot, 'float')
+                out_t.total_of = a
+                I.ctx._last_total = tot
+                return out_t
             raise Unsupported('full reduction %s of a %d-d array' % (name, a.ndim))
         if axis < 0:
             axis += a.ndim
@@ -1408,6 +1560,11 @@ class NumpyModel(object):
 
         @reg('array')
         def _array(I_, a, k):
+            if a and isinstance(I_.force(a[0]), Opaque) and I_.force(a[0]).tag == 'indexlist':
+                dt_, _b = self.dtype_of(k.get('dtype'))
+                if dt_ != 'int':
+                    raise Unsupported('np.array of an index list with a non-integer dtype')
+                return Opaque('indexset', I_.force(a[0]).payload)
             d = k.get('dtype', a[1] if len(a) > 1 else None)
             dt, bits = self.dtype_of(d)
             v = I.force(a[0])
@@ -1535,6 +1692,40 @@ class NumpyModel(object):
             return self.new([self.norm_dim(nz)], 'float',
                             lambda i, s=s, e=e, nz=nz: z3.If(nz == 1, s, s + z3.ToReal(i) * (e - s) / z3.ToReal(nz - 1)))
 
+        @reg('isclose')
+        def _isclose(I_, a, k):
+            rt = k.get('rtol', a[2] if len(a) > 2 else None)
+            at = k.get('atol', a[3] if len(a) > 3 else None)
+            rt = z3.RealVal('1/100000') if rt is None else I_.z(rt, 'real')
+            at = z3.RealVal('1/100000000') if at is None else I_.z(at, 'real')
+            A, B = self.as_array(a[0]), self.as_array(a[1])
+            shape, (fa, fb) = self.broadcast([A, B])
+            Af, Bf = A.fn, B.fn
+            zabs = lambda e: z3.If(e < 0, -e, e)
+            self.ax('np.isclose(a, b): |a - b| <= atol + rtol*|b| over the reals')
+            out = self.finish(shape, 'bool', lambda *idx: zabs(self.cast(Af(*fa(idx)), A.dtype, 'float') - self.cast(Bf(*fb(idx)), B.dtype, 'float'))
+                              <= at + rt * zabs(self.cast(Bf(*fb(idx)), B.dtype, 'float')), [A, B])
+            if not shape:
+                return I_.mk(out.fn(), 'bool')
+            return out
+
+        def _round(I_, a, k):
+            dec = k.get('decimals', a[1] if len(a) > 1 else 0)
+            if not isinstance(dec, int):
+                raise Unsupported('np.round with a symbolic number of decimals')
+            x = a[0]
+            if isinstance(x, NDArr) and x.ndim > 0:
+                raise Unsupported('np.round of an array')
+            e = I_.z(x.fn() if isinstance(x, NDArr) else x, 'real')
+            rf = z3.Function('u_round%d' % dec, z3.RealSort(), z3.RealSort())
+            half = z3.RealVal(5) / z3.RealVal(10 ** (dec + 1)) if dec >= 0 else z3.RealVal(5 * 10 ** (-dec - 1))
+            xq = z3.Real('ax_rx')
+            I_.ctx.add_axiom(z3.ForAll([xq], z3.And(rf(xq) - xq <= half, xq - rf(xq) <= half), patterns=[rf(xq)]),
+                             'A-REAL:round(x, %d) is within half a unit of the last kept decimal of x' % dec)
+            return SV(rf(e), 'real', True)
+        T['numpy.round'] = Builtin('np.round', _round)
+        T['numpy.around'] = Builtin('np.around', _round)
+
         @reg('isnan')
         def _isnan(I_, a, k):
             x = a[0]
@@ -1571,6 +1762,67 @@ class NumpyModel(object):
         def _ndim(I_, a, k):
             v = I.force(a[0])
             return v.ndim if isinstance(v, NDArr) else 0
+
+        @reg('histogram2d')
+        def _histogram2d(I_, a, k):
+            return self.histogram2d(a, k)
+
+        @reg('digitize')
+        def _digitize(I_, a, k):
+            return self.digitize(a[0], k.get('bins', a[1] if len(a) > 1 else None))
+
+        @reg('argsort')
+        def _argsort(I_, a, k):
+            return self.argsort(a[0])
+
+        @reg('cumsum')
+        def _cumsum(I_, a, k):
+            return self.cumsum(a[0])
+
+        @reg('nonzero')
+        def _nonzero(I_, a, k):
+            b = self.as_array(a[0])
+            if b.ndim != 1 or b.dtype != 'bool':
+                raise Unsupported('np.nonzero of a non 1-d boolean array')
+            s_ = self.mask_sel(b, b.shape[0])
+            self.ax('np.nonzero(b)[0] lists the positions where b holds, in increasing order')
+            idx = self.new([s_.n], 'int', lambda r, s_=s_: s_.fn(r))
+            I_.ctx._nonzero_sels = getattr(I_.ctx, '_nonzero_sels', []) + [s_]
+            return stamp(Seq('tuple', [idx]))
+
+        @reg('frompyfunc')
+        def _frompyfunc(I_, a, k):
+            def filler(I2, aa, kk):
+                # filler(G, G): every cell of the object array G becomes the value of f(cell) -- used with f = lambda x: list()
+                tgt = aa[1] if len(aa) > 1 else None
+                if isinstance(tgt, NDArr) and tgt.dtype == 'object' and getattr(tgt, 'grid', None) is not None:
+                    probe = I2.call(a[0], [None], {})
+                    if not (isinstance(probe, Seq) and probe.kind == 'list' and not probe.items):
+                        raise Unsupported('frompyfunc filler that does not produce empty lists')
+                    tgt.grid.initialised = True
+                    self.ax('np.frompyfunc(f,1,1)(G, G) stores f(cell) in every cell of the object array G')
+                    return tgt
+                raise Unsupported('np.frompyfunc call form')
+            return Builtin('frompyfunc-result', filler)
+
+        @reg('empty_like')
+        def _empty_like(I_, a, k):
+            src = self.as_array(a[0])
+            d = k.get('dtype', a[1] if len(a) > 1 else None)
+            dt, bits = self.dtype_of(d)
+            if dt == 'object':
+                out = self.new(src.shape, 'object', None)
+                out.grid = GridState()
+                return out
+            raise Unsupported('np.empty_like with a numeric dtype (uninitialised memory)')
+
+        @reg('logical_and')
+        def _logical_and(I_, a, k):
+            A, B = self.as_array(a[0]), self.as_array(a[1])
+            shape, (fa, fb) = self.broadcast([A, B])
+            Af, Bf = A.fn, B.fn
+            tb = lambda e, dt: e if dt == 'bool' else self.cast(e, dt, 'bool')
+            return self.finish(shape, 'bool', lambda *idx: z3.And(tb(Af(*fa(idx)), A.dtype), tb(Bf(*fb(idx)), B.dtype)), [A, B])
 
         @reg('dtype')
         def _dtype(I_, a, k):
@@ -1669,6 +1921,105 @@ class NumpyModel(object):
             out.float_bits = bits
         out.writeable = False
         out.memmap_of = (fm, off, bits, big)
+        return out
+
+    # ---- histogram / sorting / prefix sums (assumed contracts: A-LIB) -------------------------------------------
+    def edges_of(self, spec):
+        """bin specification -> 1-d float array of edges (only explicit edges are modelled)"""
+        spec = self.I.force(spec)
+        if isinstance(spec, NDArr) and spec.ndim == 1:
+            return spec
+        if isinstance(spec, (Seq, SymSeq)):
+            return self.as_array(spec)
+        raise Unsupported('histogram bins given as a count (edges derived from the data range are not modelled)')
+
+    def histogram2d(self, a, k):
+        from .interp import stamp, raise_py
+        I = self.I
+        x, y = self.as_array(a[0]), self.as_array(a[1])
+        bins = I.force(k.get('bins', a[2] if len(a) > 2 else 10))
+        if isinstance(bins, Seq) and len(bins.items) == 2 and not all(I.is_number(b_) for b_ in bins.items):
+            xe, ye = self.edges_of(bins.items[0]), self.edges_of(bins.items[1])
+        elif isinstance(bins, NDArr) and bins.ndim == 1:
+            xe = ye = bins
+        else:
+            raise Unsupported('np.histogram2d with bin counts')
+        nx, ny = self.dim_z(xe.shape[0]) - 1, self.dim_z(ye.shape[0]) - 1
+        if I.ctx.branch(z3.Or(nx < 1, ny < 1), safety=True):
+            raise_py('ValueError', 'bins must have at least two edges')
+        H = I.ctx.fresh_fn('H', z3.IntSort(), z3.IntSort(), z3.RealSort())
+        i, j = z3.Ints('h_i h_j')
+        I.ctx.assume(z3.ForAll([i, j], H(i, j) >= 0, patterns=[H(i, j)]))
+        self.ax('np.histogram2d(x, y, [xe, ye]): counts over half-open bins with a closed last edge; returns the edges it was given')
+        Harr = self.new([self.norm_dim(nx), self.norm_dim(ny)], 'float', lambda a_, b_: H(a_, b_))
+        Harr.hist_of = {'x': x.fn, 'y': y.fn, 'xe': xe, 'ye': ye, 'n': x.shape[0], 'H': H}
+        xef, yef = xe.fn, ye.fn
+        xe2 = self.new(list(xe.shape), 'float', lambda r: self.cast(xef(r), xe.dtype, 'float'))
+        ye2 = self.new(list(ye.shape), 'float', lambda r: self.cast(yef(r), ye.dtype, 'float'))
+        return stamp(Seq('tuple', [Harr, xe2, ye2]))
+
+    def digitize(self, x, bins):
+        I = self.I
+        x, e = self.as_array(x), self.as_array(bins)
+        if x.ndim != 1 or e.ndim != 1:
+            raise Unsupported('np.digitize on these shapes')
+        L = self.dim_z(e.shape[0])
+        N = self.dim_z(x.shape[0])
+        DG = I.ctx.fresh_fn('digitize', z3.IntSort(), z3.IntSort())
+        xf, ef = x.fn, e.fn
+        i = z3.Int('dg_i')
+        xv = lambda t: self.cast(xf(t), x.dtype, 'float')
+        ev = lambda t: self.cast(ef(t), e.dtype, 'float')
+        I.ctx.assume(z3.ForAll([i], z3.Implies(z3.And(0 <= i, i < N),
+                                               z3.And(0 <= DG(i), DG(i) <= L,
+                                                      z3.Implies(DG(i) >= 1, ev(DG(i) - 1) <= xv(i)),
+                                                      z3.Implies(DG(i) <= L - 1, xv(i) < ev(DG(i))))), patterns=[DG(i)]))
+        self.ax('np.digitize(x, e)[i] = number of edges <= x[i] for increasing edges e (e[d-1] <= x < e[d])')
+        out = self.new([x.shape[0]], 'int', lambda t: DG(t))
+        out.digitize_of = (xf, e)
+        return out
+
+    def argsort(self, v):
+        I = self.I
+        v = self.as_array(v)
+        if v.ndim != 1:
+            raise Unsupported('np.argsort of a non 1-d array')
+        M = self.dim_z(v.shape[0])
+        P = I.ctx.fresh_fn('argsort', z3.IntSort(), z3.IntSort())
+        Q = I.ctx.fresh_fn('argsort_inv', z3.IntSort(), z3.IntSort())
+        vf = v.fn
+        k, k2, j = z3.Ints('as_k as_k2 as_j')
+        # (triggers avoid the loop P(k) -> Q(P(k)) -> P(Q(P(k))) ...)
+        I.ctx.assume(z3.ForAll([k], z3.Implies(z3.And(0 <= k, k < M), z3.And(0 <= P(k), P(k) < M)), patterns=[P(k)]))
+        I.ctx.assume(z3.ForAll([k], z3.Implies(z3.And(0 <= k, k < M), Q(P(k)) == k), patterns=[Q(P(k))]))
+        I.ctx.assume(z3.ForAll([j], z3.Implies(z3.And(0 <= j, j < M), z3.And(0 <= Q(j), Q(j) < M, P(Q(j)) == j)), patterns=[Q(j)]))
+        I.ctx.assume(z3.ForAll([k, k2], z3.Implies(z3.And(0 <= k, k < k2, k2 < M), z3.And(vf(P(k)) <= vf(P(k2)), P(k) != P(k2))),
+                               patterns=[z3.MultiPattern(P(k), P(k2))]))
+        self.ax('np.argsort(v): a permutation p of the positions with v[p[k]] non-decreasing in k')
+        out = self.new([v.shape[0]], 'int', lambda t: P(t))
+        out.perm = (P, Q, vf)
+        return out
+
+    def cumsum(self, v):
+        I = self.I
+        v = self.as_array(v)
+        if v.ndim != 1:
+            raise Unsupported('np.cumsum of a non 1-d array')
+        M = self.dim_z(v.shape[0])
+        dt = 'float' if v.dtype == 'float' else 'int'
+        C = I.ctx.fresh_fn('cumsum', z3.IntSort(), z3.RealSort() if dt == 'float' else z3.IntSort())
+        vf = v.fn
+        val = lambda t: self.cast(vf(t), v.dtype, dt)
+        k = z3.Int('cs_k')
+        I.ctx.assume(C(z3.IntVal(0)) == val(z3.IntVal(0)))
+        kp = z3.Int('cs_kp')
+        # two-variable form: only instantiated for pairs of cumulative sums that are already being talked about
+        # (the one-variable form C(k) -> C(k-1) -> C(k-2) ... is a matching loop)
+        I.ctx.assume(z3.ForAll([k, kp], z3.Implies(z3.And(1 <= k, k < M, kp == k - 1), C(k) == C(kp) + val(k)),
+                               patterns=[z3.MultiPattern(C(k), C(kp))]))
+        self.ax('np.cumsum(v)[k] = v[0] + ... + v[k]')
+        out = self.new([v.shape[0]], dt, lambda t: C(t))
+        out.cumsum_of = (C, vf)
         return out
 
     # ---- column statistics (assumed textbook reductions: A-LIB) ---------------------------------
